@@ -39,6 +39,8 @@ func exec(op string) (res string) {
 		return execRtx(w[1:])
 	case "hseq":
 		return execHseq(w[1:])
+	case "sstr":
+		return execSstr(w[1:])
 	}
 	return "bad-op"
 }
@@ -119,6 +121,10 @@ func main() {
 	}
 	// CROSS-KIND round trips of integer columns against the specification (op rtx)
 	for _, c := range genCross(r, tier) {
+		emit(c.op, c.class)
+	}
+	// STRING SOURCES of inet / date / integer columns against the specification (op sstr)
+	for _, c := range genStr(r, tier) {
 		emit(c.op, c.class)
 	}
 	// sizes and counts on both sides of every width boundary of both collection framings
